@@ -39,7 +39,8 @@ SPEC = {
             "its crash state is materialised WITH the temp file under the name the real code used; a second process's attempt is traced over such a "
             "directory (name + flags -> the discipline HistOK is evaluated by histOKb on every crash point of attempt 1), then the REAL Maintenance "
             "snapshots a smaller state (0-1 records) in-process over each materialised crash state, the target is read back (must be exactly the new "
-            "snapshot, compared with the model's runHist) and loaded by the real loader. A case is non-trivial when it hits a tagged branch; distinct = distinct hash of its lines",
+            "snapshot, compared with the model's runHist) and loaded by the real loader. (f) mutesrace/snaprace (real goroutines, real time): Silences.Snapshot over 300/1500 active silences racing an incompatible edit of one of them (expire + replacement in one critical section), the edit started when the snapshot's writer has its first bytes (the writer stalls <= 30 ms) or after 1/8..3/8 of the measured duration of a snapshot; the snapshot is loaded into a fresh Silences and must be the store before or after the edit (snapshot_loads_one_state, class snapshot-mixed-state). "
+            "A case is non-trivial when it hits a tagged branch; distinct = distinct hash of its lines",
     "assumptions": [
         "protobuf field codec round-trips (decodeMsg (encodeMsg m) = some m): the harness uses proto.Unmarshal as the oracle for payloads",
         "file system: fsync makes the file's data durable on return; rename is atomic; directory operations persist in order (weak) or on return (strong); "
